@@ -232,19 +232,7 @@ def run(rep):
     rule_folding(rep)
 
 
-class _Prefixed:
-    """Report proxy: re-run a sibling module's rule under this property with prefixed rule names."""
-    def __init__(self, rep, prefix):
-        self._rep, self._p = rep, prefix
-
-    def ob(self, rule, *a, **k):
-        return self._rep.ob(self._p + rule, *a, **k)
-
-    def floor(self, rule, *a, **k):
-        return self._rep.floor(self._p + rule, *a, **k)
-
-    def __getattr__(self, n):
-        return getattr(self._rep, n)
+from lib.common import Prefixed as _Prefixed
 
 
 IRC = "sway-ir/src/optimize/constants.rs"
